@@ -245,6 +245,13 @@ func (_this *RulesEventReceiver) validateArrayAPICall(arrayType events.ArrayType
 	}
 }
 
+// Custom type codes are 32 bits wide (CBE cannot carry more).
+func (_this *RulesEventReceiver) validateCustomTypeCode(customType uint64) {
+	if customType > 0xffffffff {
+		panic(fmt.Errorf("custom type code %v is too big (max allowed value = %v)", customType, uint64(0xffffffff)))
+	}
+}
+
 func (_this *RulesEventReceiver) validateCustomTypeAPICall(arrayType events.ArrayType) {
 	switch arrayType {
 	case events.ArrayTypeCustomBinary, events.ArrayTypeCustomText:
@@ -278,12 +285,14 @@ func (_this *RulesEventReceiver) OnMedia(mediaType string, value []byte) {
 }
 
 func (_this *RulesEventReceiver) OnCustomBinary(customType uint64, value []byte) {
+	_this.validateCustomTypeCode(customType)
 	_this.context.NotifyNewObject(true)
 	_this.context.CurrentEntry.Rule.OnArray(&_this.context, events.ArrayTypeCustomBinary, uint64(len(value)), value)
 	_this.receiver.OnCustomBinary(customType, value)
 }
 
 func (_this *RulesEventReceiver) OnCustomText(customType uint64, value string) {
+	_this.validateCustomTypeCode(customType)
 	_this.context.NotifyNewObject(true)
 	_this.context.CurrentEntry.Rule.OnStringlikeArray(&_this.context, events.ArrayTypeCustomText, value)
 	_this.receiver.OnCustomText(customType, value)
@@ -305,6 +314,7 @@ func (_this *RulesEventReceiver) OnMediaBegin(mediaType string) {
 
 func (_this *RulesEventReceiver) OnCustomBegin(arrayType events.ArrayType, customType uint64) {
 	_this.validateCustomTypeAPICall(arrayType)
+	_this.validateCustomTypeCode(customType)
 	_this.context.NotifyNewObject(true)
 	_this.context.CurrentEntry.Rule.OnArrayBegin(&_this.context, arrayType)
 	_this.receiver.OnCustomBegin(arrayType, customType)
